@@ -1060,4 +1060,37 @@ example :
     Stack.ranges ⟨0, 2, 1, ⟨0, 2, 0, 2⟩⟩ f true = some [(10, 18), (20, 28)] ∧
     Stack.ranges ⟨0, 2, 1, ⟨0, 2, 0, 2⟩⟩ f false = some [(10, 15), (20, 25)] := by decide +kernel
 
+/-! ## The Software tag is stable under re-export; legacy files are recognised by it -/
+
+/-- Exporting an exported file does not touch the Software tag again: `ImageStack._tiff_writer_kwargs` appends
+    `Pylake v<version>` once, whatever the tag was (any spelling of "pylake" counts as present). -/
+theorem software_tag_fixed_point (sw ver : List Char) :
+    softwareOut (softwareOut sw ver) ver = softwareOut sw ver :=
+  softwareOut_idem sw ver
+
+/-- The original Software text is kept in front, and afterwards the tag names pylake. -/
+theorem software_tag_keeps_original (sw ver : List Char) :
+    (∃ t, softwareOut sw ver = sw ++ t) ∧ hasSub "pylake".toList ((softwareOut sw ver).map lowerAscii) = true :=
+  ⟨softwareOut_prefix sw ver, softwareOut_marked sw ver⟩
+
+example : softwareOut "Bluelake 2.5".toList "1.5.0".toList = "Bluelake 2.5, Pylake v1.5.0".toList := by decide
+example : softwareOut "".toList "1.5.0".toList = "Pylake v1.5.0".toList := by decide
+example : softwareOut "Bluelake, PYLAKE x".toList "1.5.0".toList = "Bluelake, PYLAKE x".toList := by decide
+
+/-- `_legacy_exposure` is exactly: the (case-sensitive) word `Pylake` occurs in the Software tag and the page has no
+    `"Exposure time (ms)"` key. -/
+theorem legacy_detection_spec (sw : List Char) (key : Bool) :
+    legacyExposure sw key = true ↔ key = false ∧ ∃ pre post, sw = pre ++ "Pylake".toList ++ post := by
+  unfold legacyExposure
+  rw [Bool.and_eq_true, hasSub_iff]
+  cases key <;> simp
+
+/-- What `export_tiff` writes is never taken for a legacy file (it always carries the exposure key) — while without
+    the key the very tag it writes would make it one (kernel-checked instance): the key is what keeps the DateTime
+    tags meaning "frame range" on re-reading. -/
+theorem exported_file_not_legacy (sw ver : List Char) : legacyExposure (softwareOut sw ver) true = false := by
+  unfold legacyExposure; simp
+
+example : legacyExposure (softwareOut "Bluelake 2.5".toList "1.5.0".toList) false = true := by decide
+
 end Verif.C18
